@@ -90,7 +90,7 @@ void ebpps_sample<T,A>::downsample(double theta) {
 
   if (new_c_int == 0.0) {
     // no full items retained
-    if (next_double() > (c_frac / c_)) {
+    if (next_double() >= (c_frac / c_)) {
       swap_with_partial();
     }
     data_.clear();
@@ -154,7 +154,7 @@ void ebpps_sample<T,A>::merge(FwdSample&& other) {
     }
     partial_item_.reset();
   } else if (c_frac + other_c_frac < 1.0) {
-    if (next_double() > c_frac / (c_frac + other_c_frac)) {
+    if (next_double() >= c_frac / (c_frac + other_c_frac)) {
       set_partial(conditional_forward<FwdSample>(*other.partial_item_));
     }
   } else { // c_frac + other_c_frac > 1
